@@ -245,6 +245,8 @@ def confirm_against_program(ctx):
     for p in ctx.problems:
         if p.kind != 'oracle' or p.case is None or not hasattr(p.case, 'argv'):
             continue
+        if (p.signature or '').startswith(('nondeterministic', 'depth-order-dependent')):
+            continue        # a verdict about runs that differ from one another: one more run proves nothing either way (C05 repeats it across processes itself)
         cs = [p.case]
         pair = getattr(p.case, 'meta', {}).get('pair') if hasattr(p.case, 'meta') else None
         if pair is not None and hasattr(pair, 'argv'):
